@@ -22,8 +22,8 @@ import gen
 
 # The chunked kernel obligations (UnytProofs/C10Tab/*) are imported by these two modules, whose
 # combined theorems depend on every chunk theorem (so `#print axioms` covers them transitively).
-QUICK_MODULES = ["UnytProofs.C10"]
-THOROUGH_MODULES = ["UnytProofs.C10", "UnytProofs.C10Pre"]
+QUICK_MODULES = ["UnytProofs.C10", "UnytProofs.Real.C10Real"]
+THOROUGH_MODULES = ["UnytProofs.C10", "UnytProofs.Real.C10Real", "UnytProofs.C10Pre", "UnytProofs.Real.C10RealInit"]
 
 ORACLE = r'''
 import math, sys, warnings
